@@ -248,10 +248,10 @@ def gen_congruence(tier, rng):
         if all(np.all(np.abs(b).sum(axis=0) > 0) for b in B):
             calls.append(dict(As=A, Bs=B, absv=True, stream="perturbed"))
     # (e) malformed requests: both sides must reject
-    for _ in range(12 if tier == "quick" else 40):
+    for k in range(12 if tier == "quick" else 40):
         r = rng.randint(1, 4); hs = [rng.randint(1, 4) for _ in range(2)]
         A = factor_set(rng, r, hs); B = factor_set(rng, r, hs)
-        kind = rng.choice(["lengths", "columns", "rows", "zero_column"])
+        kind = ["lengths", "columns", "rows", "zero_column"][k % 4]
         if kind == "lengths":
             B = B[:1]
         elif kind == "columns":
@@ -259,7 +259,7 @@ def gen_congruence(tier, rng):
         elif kind == "rows":
             B[0] = dyadic_matrix(rng, hs[0] + 1, r)
         else:
-            (A if rng.random() < 0.5 else B)[rng.randrange(2)][:, rng.randrange(r)] = 0.0
+            (A if (k // 4) % 2 == 0 else B)[rng.randrange(2)][:, rng.randrange(r)] = 0.0
         calls.append(dict(As=A, Bs=B, absv=True, malformed=kind, stream="malformed"))
     return calls
 
@@ -346,18 +346,19 @@ def gen_permute(tier, rng):
         A = factor_set(rng, r, hs, generic=True)
         wref = np.array([rng.choice([0.5, 1.0, 2.0, 3.0]) for _ in range(r)])
         w = np.array([rng.choice([0.5, 1.0, 2.0, 3.0, -1.0]) for _ in range(r)])
-        as_list = (k % 4 == 0)
+        as_list = (k % 3 == 0)
+        pick = (k // 3) % 2       # r = 1 + k % 4 and k = 3j: both positions occur with every rank
         extra = {}
         if as_list:     # the second tensor of the list: another equivalent copy with its own permutation and weights
             s2 = list(range(r)); rng.shuffle(s2)
             extra = dict(Bs_other=equivalent_copy(A, s2, scalings(rng, r, nm, "signed")),
                          w_other=np.array([rng.choice([0.25, 1.5, 4.0, -2.0]) for _ in range(r)]))
-        if k % 3 != 2:
+        if (k // 2) % 3 != 2:
             sigma = list(range(r)); rng.shuffle(sigma)
             B = equivalent_copy(A, sigma, scalings(rng, r, nm, "signed"))
-            calls.append(dict(As=A, Bs=B, w=w, wref=wref, sigma=sigma, as_list=as_list, pick=(k // 4) % 2, stream="equivalent", **extra))
+            calls.append(dict(As=A, Bs=B, w=w, wref=wref, sigma=sigma, as_list=as_list, pick=pick, stream="equivalent", **extra))
         else:
-            calls.append(dict(As=A, Bs=factor_set(rng, r, hs), w=w, wref=wref, as_list=as_list, pick=(k // 4) % 2, stream="random", **extra))
+            calls.append(dict(As=A, Bs=factor_set(rng, r, hs), w=w, wref=wref, as_list=as_list, pick=pick, stream="random", **extra))
     return calls
 
 
@@ -439,10 +440,10 @@ def gen_corridx(tier, rng):
                 B = [b + np.array([[rng.randint(-2, 2) / 16 for _ in range(r)] for _ in range(b.shape[0])]) for b in B]
                 if all(np.all(np.abs(b).sum(axis=0) > 0) for b in B):
                     calls.append(dict(As=A, Bs=B, method=meth, stream="perturbed"))
-    for _ in range(10 if tier == "quick" else 40):
+    for k in range(12 if tier == "quick" else 40):
         r = rng.randint(1, 3); hs = [rng.randint(1, 3) for _ in range(2)]
         A = factor_set(rng, r, hs); B = factor_set(rng, r, hs)
-        kind = rng.choice(["method", "ranks", "shapes", "zero_column"])
+        kind = ["method", "ranks", "shapes", "zero_column"][k % 4]
         meth = rng.choice(METHODS)
         if kind == "method":
             meth = "bogus"
@@ -451,9 +452,10 @@ def gen_corridx(tier, rng):
         elif kind == "shapes":
             B = [dyadic_matrix(rng, h + 1, r) for h in hs]
         else:
-            B[rng.randrange(2)][:, rng.randrange(r)] = 0.0
+            Z = A if (k // 4) % 2 == 0 else B
+            Z[rng.randrange(2)][:, rng.randrange(r)] = 0.0
             if meth == "stacked":
-                for b in B:
+                for b in Z:
                     b[:, 0] = 0.0
         calls.append(dict(As=A, Bs=B, method=meth, malformed=kind, stream="malformed"))
     return calls
@@ -748,7 +750,13 @@ def run(chk):
         if sname == "leverage_score_dist" and call["M"].dtype != np.float64:
             continue    # the float32 renormalisation branch is judged by the predicate only
         cid = len(cases)
-        cases.append(emit(cid, call, out)); meta.append((sname, call, out))
+        try:
+            lit = emit(cid, call, out)
+        except (ValueError, OverflowError) as e:     # NaN / inf in an output: a finding, never a harness error
+            chk.finding(entry_point(sname, call), {"stream": sname, "call": encode_call(call)},
+                        f"non-finite output cannot be compared with the model: {e}", "C20_finite_output", observed=str(out[1])[:300])
+            continue
+        cases.append(lit); meta.append((sname, call, out))
         if cid % 211 == 0:
             chk.sample({"entry_point": entry_point(sname, call), "stream": call.get("stream"), "outcome": out[0],
                         "output": str(out[1])[:120], "input_shapes": [list(np.asarray(a).shape) for a in call.get("As", [call.get("yt", call.get("M"))])]}, maxn=6)
@@ -772,6 +780,7 @@ def run(chk):
         chk.disagreement(f"corr:C20 (Model/Metrics.v vs {entry_point(sname, call)})",
                          {"stream": sname, "call": encode_call(call), "impl": str(out[1])[:300]})
     chk.assumptions = ["exact-arithmetic semantics: floating-point rounding is outside the model (values through sqrt/division compared at 1e-9)",
+                       "the r! brute force in Coq runs on the exact congruence matrix rounded down to multiples of 2^-80 (scores move by < 2^-80)",
                        "column norms, the assignment and the thin SVD are oracle answers whose contracts are re-checked in Coq on every case",
                        "factor matrices have no exactly-zero column (the code rejects them) and at least one row and column"]
     chk.trusted += ["oracles: numpy sqrt (column norms), scipy.optimize.linear_sum_assignment, numpy.linalg.svd -- answers checked per case "
